@@ -92,6 +92,8 @@ pub mod kani {
 #[cfg(not(kani))]
 #[macro_export]
 macro_rules! kani_cover {
+    // natively a cover is a no-op, except that reaching a MUST_NOT_REACH cover with a true condition is reported (replay of such a cover)
+    ($c:expr, $m:expr) => { if $c && $m.starts_with("MUST_NOT_REACH") { eprintln!("REPLAY-MUST-NOT-REACH {}", $m); } };
     ($($t:tt)*) => {};
 }
 
